@@ -50,8 +50,7 @@ PROPS["C12"]["level_text"] = (
     "masks handed to Lengths taken from Gen/LengthMask.lean [re-extracted from Geodesic.cpp / GeodesicExact.cpp each run]: geod_lengthmask_canonical, "
     "geodx_lengthmask_canonical (decide +kernel over all 512 flag unions), geod_inverse_value_mask_independent (every output and a12, every branch, "
     "all masks), geod_inverse_no_uninit (no unassigned local is read), inverse_written_spec (assigned ⇔ in the executed writtenInverse, both solvers); "
-    "PARTIAL: geodx_inverse_value_mask_independent_partial needs DISTANCE in both masks on the meridional branch (the full statement is false for the "
-    "current GeodesicExact.cpp: open finding G12-2); Rhumb: rhumbPosition_mask_independent (S12 independent of LONG_UNROLL and of the other requests, "
+    "geodx_inverse_value_mask_independent: the same full statement for GeodesicExact::GenInverse since the repair dc6d194 of finding F67 (the meridional Lengths call now asks for DISTANCE under every mask: Gen obligation geodx_meridian_distance_always; the _partial version with the explicit hypothesis is kept); Rhumb: rhumbPosition_mask_independent (S12 independent of LONG_UNROLL and of the other requests, "
     "both sides of the pole), rhumbPosition_isSome_iff, rhumbInverse_mask_independent, rhumbInverse_isSome_iff. "
     "Correspondence only (no theorem): the numeric kernels themselves; that the hand-written dataflow terms are what the C++ computes.")
 
@@ -70,4 +69,4 @@ PROPS["C12"]["assumptions"] = [
     "they are validated by the bit-for-bit value-independence oracles of the harness",
     "third_point_consistent / constructors_reproduce_endpoint assume the kernel contract (arc and corresponding distance give the same point), which "
     "the implementation satisfies only up to round-off: checked by the harness with the documented 100 nm tolerance",
-    "default-constructed objects are built over painted memory; reading the indeterminate member _exact is undefined behaviour in C++ (finding G12-1)"]
+    "default-constructed objects are built over painted memory; reading the indeterminate member _exact is undefined behaviour in C++ (finding F66)"]
